@@ -1649,6 +1649,57 @@ class HavlinDriver(_DataClimateDriver):
 register(HavlinDriver())
 
 
+class RainfallDriver(_DataClimateDriver):
+    name = "RainfallClimateNetwork"
+    thresholds = (0.3, 0.6)
+
+    def cls(self):
+        from pyunicorn.climate import RainfallClimateNetwork
+        return RainfallClimateNetwork
+
+    def base_model(self):
+        return {"t": 0.4, "non_local": False}
+
+
+register(RainfallDriver())
+
+
+class EventSeriesClimateDriver(_DataClimateDriver):
+    """The constructor fixes the threshold at 0: a fresh object in another
+    state is the constructor followed by ONE setter call."""
+    name = "EventSeriesClimateNetwork"
+    thresholds = (0.15, 0.3)
+    density = 0.4
+
+    def cls(self):
+        from pyunicorn.climate import EventSeriesClimateNetwork
+        return EventSeriesClimateNetwork
+
+    def base_model(self):
+        return {"t": 0, "non_local": False, "method": "ES", "sym": "mean"}
+
+    def models(self, tier):
+        return [self.base_model(),
+                {"t": 0, "non_local": False, "method": "ECA",
+                 "sym": "directed"}]
+
+    def construct(self, model):
+        obj = self.cls()(self.data(), method=model["method"],
+                         taumax=4 if model["method"] == "ES" else 1,
+                         symmetrization=model["sym"],
+                         threshold_method="quantile", threshold_values=0.7,
+                         threshold_types="above",
+                         non_local=model["non_local"], silence_level=3)
+        if model.get("rho") is not None:
+            obj.set_link_density(model["rho"])
+        elif model["t"] != 0:
+            obj.set_threshold(model["t"])
+        return obj
+
+
+register(EventSeriesClimateDriver())
+
+
 class HilbertDriver(_DataClimateDriver):
     name = "HilbertClimateNetwork"
 
